@@ -132,6 +132,24 @@ def check_digests(ctx, pmt, rng):
                 rec = ti.checksums.checksums.get(rel)
                 if rec is None or list(rec) != [alg, want] or len(ti.checksums.checksums) != 1:
                     probs.append("Checksums.add (root spelled %r) recorded %r" % (root_sp, dict(ti.checksums.checksums)))
+                if (si + algs.index(alg)) % 3 == 0:
+                    # the path asked for is, or passes through, a symbolic link inside the tree: the digest is that of the content
+                    # found there, recorded under the path AS GIVEN (normalised textually) - the entry of the link's target is
+                    # another entry and stays what it was
+                    flink = "link-%d.bin" % si
+                    dlink = "ldir%d" % si
+                    for lk, tgt in ((flink, rel), (dlink, "dir%d" % si)):
+                        if not os.path.lexists(os.path.join(root, lk)):
+                            os.symlink(tgt, os.path.join(root, lk))
+                    for given, stored in ((flink, flink), ("%s/file-%d.bin" % (dlink, size), "%s/file-%d.bin" % (dlink, size)),
+                                          ("./%s//x/../file-%d.bin" % (dlink, size), "%s/file-%d.bin" % (dlink, size))):
+                        t2 = pmt.TreeInfo()
+                        t2.checksums.add(rel, "md5", "0" * 32)
+                        t2.checksums.add(given, alg, None, root_sp)
+                        got2 = dict((k0, list(v0)) for k0, v0 in t2.checksums.checksums.items())
+                        if got2 != {rel: ["md5", "0" * 32], stored: [alg, want]}:
+                            probs.append("Checksums.add(%r) through a symbolic link recorded %r" % (given, got2))
+                        ctx.count("path-through-symlink")
             except Exception as e:
                 probs.append("Checksums.add raised %s: %s" % (type(e).__name__, e))
             finally:
@@ -392,10 +410,29 @@ def check_history(ctx, pmi, rng, script=None):
         sib = FI.make_image(pmi, im, dict(SIB_ATTRS, path="Live/x86_64/iso/LXDE.iso", subvariant="" if legacy else "LXDE",
                                           checksums={"md5": "5" * 32, "sha1": "1" * 40}))
         img.checksums = {"sha512": "0" * 128}
+        same_path = not script and rng.random() < 0.4
+        if script and script.get("sibling_same_path"):
+            same_path = True
+        if same_path:
+            # the sibling is ANOTHER listing of the same file (same path, another image type: the boot image that is also the
+            # netinst image), recorded with other checksum types and one other value
+            sib.path = img.path
+            sib.type = "netinst" if img.type != "netinst" else "boot"
+            img.checksums = {"sha512": "0" * 128, "md5": "7" * 32}
+            ctx.count("history-in-container-sibling-same-path")
+        sib_expected = dict(sib.checksums)
         try:
             im.add("Live", "x86_64", sib)
             im.add("Live", "x86_64", img)
             ctx.count("history-in-container-legacy-lookalike" if legacy else "history-in-container")
+            if dict(sib.checksums) != sib_expected or not any(o is img for o in im.images["Live"]["x86_64"]):
+                ctx.monitor("add-checksum-history", fired=True)
+                ctx.violation("add-checksum-history", "an image's recorded checksum is never silently replaced by a different value - "
+                              "also not by filing another listing of the same path next to it",
+                              {"ops": [], "container": container, "sibling_same_path": same_path},
+                              observed={"sibling checksums": dict(sib.checksums), "second image filed": any(o is img for o in im.images["Live"]["x86_64"])},
+                              expected={"sibling checksums": sib_expected, "second image filed": True})
+                return [], False
         except Exception:
             sib = None
             img = pmi.Image(None)
